@@ -177,7 +177,8 @@ def dec_export(text, four):
         elif s.startswith("#EOS"):
             sents.append(_export_build(cur[0], cur[1], four))
             cur = None
-        elif s.startswith("#BOS"):
+        elif re.match(r"#BOS\s+-?\d+(\s|$)", s):
+            # a sentence header; a *word* that merely begins with #BOS is a token line
             raise DecodeError("#BOS inside a sentence")
         else:
             cur[1].append(s)
